@@ -28,6 +28,7 @@ inductive NewsKind (ds : List Decl) : Obj → Prop where
       Decl.func f n s e i (some b) ∈ ds → BodyItem.staticLocal tls ty init ∈ b → NewsKind ds (slObj f k tls ty init)
   | str {cur : Option Name} {k n : Nat} : NewsKind ds (strObj cur k n)
 
+omit [Rules] in
 theorem mem_of_split {ds pre post : List Decl} {d : Decl} (h : ds = pre ++ d :: post) : d ∈ ds := by
   rw [h]; exact List.mem_append_right _ List.mem_cons_self
 
@@ -158,22 +159,31 @@ theorem sl_mem_allNews : ∀ (ds : List Decl) (k : Nat) (env : SEnv) {f : Name} 
 
 /-! ### fields of the objects -/
 
+omit [Rules] in
 theorem varObj_sym (k : Nat) (x : Name) (s e t : Bool) (ty : ObjTy) (init : Option (List InitItem)) :
     (varObj k x s e t ty init).sym = .named x := by cases init <;> rfl
+omit [Rules] in
 theorem varObj_isFunction (k : Nat) (x : Name) (s e t : Bool) (ty : ObjTy) (init : Option (List InitItem)) :
     (varObj k x s e t ty init).isFunction = false := by cases init <;> rfl
+omit [Rules] in
 theorem varObj_isStatic (k : Nat) (x : Name) (s e t : Bool) (ty : ObjTy) (init : Option (List InitItem)) :
     (varObj k x s e t ty init).isStatic = s := by cases init <;> rfl
+omit [Rules] in
 theorem varObj_isTls (k : Nat) (x : Name) (s e t : Bool) (ty : ObjTy) (init : Option (List InitItem)) :
     (varObj k x s e t ty init).isTls = t := by cases init <;> rfl
+omit [Rules] in
 theorem varObj_ty (k : Nat) (x : Name) (s e t : Bool) (ty : ObjTy) (init : Option (List InitItem)) :
     (varObj k x s e t ty init).ty = ty := by cases init <;> rfl
+omit [Rules] in
 theorem varObj_hasInit (k : Nat) (x : Name) (s e t : Bool) (ty : ObjTy) (init : Option (List InitItem)) :
     (varObj k x s e t ty init).hasInit = init.isSome := by cases init <;> rfl
+omit [Rules] in
 theorem varObj_isDefinition (k : Nat) (x : Name) (s e t : Bool) (ty : ObjTy) (init : Option (List InitItem)) :
     (varObj k x s e t ty init).isDefinition = (init.isSome || !e) := by cases init <;> rfl
+omit [Rules] in
 theorem varObj_isTentative (k : Nat) (x : Name) (s e t : Bool) (ty : ObjTy) (init : Option (List InitItem)) :
     (varObj k x s e t ty init).isTentative = (init.isNone && !e) := by cases init <;> rfl
+omit [Rules] in
 theorem varObj_uses (k : Nat) (x : Name) (s e t : Bool) (ty : ObjTy) (init : Option (List InitItem)) :
     (varObj k x s e t ty init).uses = match init with | none => [] | some items => initLabels k items := by cases init <;> rfl
 
@@ -209,6 +219,7 @@ theorem NewsKind.anon {ds : List Decl} {o : Obj} {j : Nat} (h : NewsKind ds o) (
     | some items => exact Or.inr ⟨f, n, s, e, i, b, tls, ty, items, k + 1, hd, hb, rfl⟩
   | str => exact ⟨rfl, rfl, Or.inl rfl⟩
 
+omit [Rules] in
 theorem mem_objDecls {ds : List Decl} {x : Name} {d : ObjDecl} :
     d ∈ objDecls ds x ↔ Decl.obj x d.isStatic d.isExtern d.isTls d.ty d.init ∈ ds := by
   unfold objDecls
@@ -227,6 +238,7 @@ theorem mem_objDecls {ds : List Decl} {x : Name} {d : ObjDecl} :
   · intro h
     exact ⟨_, h, by simp⟩
 
+omit [Rules] in
 theorem mem_fnDecls {ds : List Decl} {f : Name} {d : FnDecl} :
     d ∈ fnDecls ds f ↔ ∃ n, Decl.func f n d.isStatic d.isExtern d.isInline d.body ∈ ds := by
   unfold fnDecls
